@@ -223,6 +223,16 @@ def replayLoop (d : Core) : (fuel i last cur : Nat) → (first : Bool) → Excep
       | .error e => .error e
       | .ok (rest, fin) => .ok (evs ++ rest, fin)
 
+/-- `ApplyBlock` of block `b` at height `h` on the mock application, which answers from the saved
+ABCI responses and returns the hash `cur` the real application reported in Info -/
+def mockApplyEvs (h : Nat) (b : Block) (cur : Nat) (ver : Bool) : List Ev :=
+  [.stR h] ++ List.replicate b.txs.length .stT ++ [.stP, .stV, .stS h cur ver]
+
+/-- InitChain when the application is at height 0: the responses of "height 0" are saved, and the
+state once more if no block was applied yet -/
+def initChainEvs (d : Core) : List Ev :=
+  if d.app = 0 then [.stR 0] ++ (if d.st < 1 then saveStateEvs d.st d.stHash true else []) else []
+
 /-- `Handshaker.replayBlock` (ApplyBlock) of the block at the store height, on the real
 application (`mock = false`) or on the mock application answering from the saved responses -/
 def replayLast (d : Core) (stHash cur : Nat) (mock : Bool) : Except HsErr (List Ev × Nat) :=
@@ -232,7 +242,7 @@ def replayLast (d : Core) (stHash cur : Nat) (mock : Bool) : Except HsErr (List 
   | some b =>
     if b.appHash != stHash then .error .invalidBlock else
     if mock then
-      .ok ([.stR h] ++ List.replicate b.txs.length .stT ++ [.stP, .stV, .stS h cur d.ver], cur)
+      .ok (mockApplyEvs h b cur d.ver, cur)
     else
       .ok (applyEvs h b cur d.ver, execTxs cur b.txs)
 
@@ -242,9 +252,7 @@ def replayBlocksEvs (d : Core) : Except HsErr (List Ev) :=
   let storeH := d.store
   let stateH := d.st
   let appH := d.app
-  -- InitChain when the app is at height 0
-  let initEvs : List Ev :=
-    if appH = 0 then [.stR 0] ++ (if stateH < 1 then saveStateEvs stateH d.stHash true else []) else []
+  let initEvs : List Ev := initChainEvs d
   if storeH = 0 then
     if d.appHash != d.stHash then .error .appHash else .ok initEvs
   else if storeH < appH then .error .appAhead
@@ -386,5 +394,38 @@ def bootEvs (script : List Tx) (rounds : List (Nat × Nat)) (d : Disk) : Except 
     let d2 := applyAll d1 (walOpenEvs d1)
     let csL := (runEvs script rounds (lastHeight script + 1) d2).map (fun p => LEv.mk false p.1 p.2)
     .ok (hsL ++ openL ++ csL, d1)
+
+/-! ## Histories of kills and restarts (the quantifier of the property)
+
+`Heights d run`: a running node whose durable world is `d` (store, state and application agree)
+performs `run`: any number of heights, each with arbitrary transactions and any number of rounds.
+`Proc d evs`: a process started on the world `d` performed exactly the durable steps `evs`
+before it was killed (at any point: inside the handshake, while the WAL is opened, at any step
+of any height) — or it stalled after its start.  A height a restarted process resumes in the
+middle is traced like a fresh one (its re-signing and re-logging leave the same sign state and
+the same markers; see DESIGN/README of C33).
+`Reach d`: `d` is the durable world after some history of kills and restarts from genesis. -/
+
+inductive Heights : Disk → List Ev → Prop
+  | done (d : Disk) : Heights d []
+  | height (d : Disk) (txs : List Tx) (k : Nat) (rest : List Ev) :
+      Heights (applyAll d (heightEvs d txs k)) rest → Heights d (heightEvs d txs k ++ rest)
+
+inductive Proc (d : Disk) : List Ev → Prop
+  | handshake (hsEvs : List Ev) (c1 : Core) (pre : List Ev) :
+      newNode d.toCore = .ok (hsEvs, c1) → pre <+: hsEvs → Proc d pre
+  | running (hsEvs : List Ev) (c1 : Core) (run pre : List Ev) :
+      newNode d.toCore = .ok (hsEvs, c1) →
+      live (applyAll d hsEvs) = true →
+      Heights (applyAll (applyAll d hsEvs) (walOpenEvs (applyAll d hsEvs))) run →
+      pre <+: hsEvs ++ walOpenEvs (applyAll d hsEvs) ++ run → Proc d pre
+  | stalled (hsEvs : List Ev) (c1 : Core) (pre : List Ev) :
+      newNode d.toCore = .ok (hsEvs, c1) →
+      live (applyAll d hsEvs) = false →
+      pre <+: hsEvs ++ walOpenEvs (applyAll d hsEvs) → Proc d pre
+
+inductive Reach : Disk → Prop
+  | genesis : Reach Disk.empty
+  | kill (d : Disk) (evs : List Ev) : Reach d → Proc d evs → Reach (applyAll d evs)
 
 end GnoVerif.C33
